@@ -42,3 +42,44 @@ def confirm(prop_name, tier, task_name, values, timeout=1500):
                     % (first[0] if first else "invalid access", " <- ".join(frames), len(hits)))
     ran = "VGCHILD-DONE" in out
     return dict(confirmed=False, detail="valgrind memcheck reported no invalid access inside the libraries (%s)" % ("harness completed" if ran else "harness did not complete: " + out[-300:]))
+
+
+def confirm_race(prop_name, tier, task_name, values, threads=4, timeout=2400):
+    """Confirmation of a footprint conflict on the real, compiled code: the concrete harness runs under valgrind's helgrind with
+    OMP_NUM_THREADS > 1.  libgomp's own synchronisation is invisible to helgrind (it reports conflicts *inside* libgomp), so only a
+    report whose two conflicting accesses both have their innermost frame in an outlined OpenMP body (`<fn>._omp_fn.<k>`) of a
+    freshly built library counts."""
+    from . import replaylibs
+    d = replaylibs.build(with_fft=True)
+    tdir = tempfile.mkdtemp(prefix="verif_hg_")
+    try:
+        vf = os.path.join(tdir, "values.json")
+        with open(vf, "w") as f:
+            json.dump(dict(prop=prop_name, tier=tier, task=task_name, values=values), f)
+        env = dict(os.environ)
+        env.update(VERIF_LIBDIR=d, OMP_NUM_THREADS=str(threads), OPENBLAS_NUM_THREADS="1", PYTHONMALLOC="malloc", PYTHONDONTWRITEBYTECODE="1",
+                   PYTHONPATH=VERIF + os.pathsep + env.get("PYTHONPATH", ""))
+        cmd = ["valgrind", "--tool=helgrind", "-q", "--num-callers=12", sys.executable, "-m", "vf.vgchild", vf]
+        try:
+            p = subprocess.run(cmd, stdout=subprocess.PIPE, stderr=subprocess.STDOUT, text=True, env=env, timeout=timeout, cwd=VERIF)
+            out = p.stdout
+        except subprocess.TimeoutExpired:
+            return dict(confirmed=False, detail="helgrind replay timed out")
+    finally:
+        shutil.rmtree(tdir, True)
+    hits = []
+    for blk in re.split(r"\n==\d+== -{20,}\n", out):
+        if "Possible data race" not in blk or "This conflicts with" not in blk:
+            continue
+        first, second = blk.split("This conflicts with", 1)
+        tops = []
+        for half in (first, second):
+            m = re.search(r"==\d+==\s+at 0x[0-9A-Fa-f]+: (\S+) \(([^)]*)\)", half)
+            tops.append((m.group(1), m.group(2)) if m else ("?", "?"))
+        if all("_omp_fn" in t[0] and d in t[1] for t in tops):
+            hits.append(tops)
+    ran = "VGCHILD-DONE" in out
+    if hits:
+        return dict(confirmed=True, detail="valgrind helgrind on the unmodified code with OMP_NUM_THREADS=%d: %d conflicting access pair(s) inside outlined OpenMP bodies, e.g. %s vs %s"
+                    % (threads, len(hits), hits[0][0][0], hits[0][1][0]))
+    return dict(confirmed=False, detail="helgrind reported no conflict between two outlined OpenMP bodies (%s)" % ("harness completed" if ran else "harness did not complete: " + out[-300:]))
